@@ -7,7 +7,7 @@ import uuid
 
 from .. import codec_corr as cc
 from .. import common
-from ..values import Unmappable, from_py, to_coq
+from ..values import Unmappable, default_value, describe, from_py, to_coq
 from . import _data
 
 
@@ -64,6 +64,17 @@ def run(ctx):
             d = "None"
             if tagged:
                 d = "(Some " + res(lambda: default_term(f), lambda x: x) + ")"
+                # the resolved default against the harness's own reading of the description (explicit default, else
+                # Kafka's zero/empty value of the type; a struct's default is built from its MEMBERS' defaults)
+                try:
+                    dref = default_value(cls, next(x for x in describe(cls) if x.name == f.name))
+                    dimp = from_py(idf.get_tagged_field_default(f))
+                    if dref != dimp:
+                        prop_bad.append({"class": f"{cls.__module__}:{cls.__qualname__}", "field": f.name,
+                                         "what": "the default kio resolves for this tagged field is not the one its description states",
+                                         "resolved": repr(idf.get_tagged_field_default(f))[:200]})
+                except Exception:  # noqa  (unresolvable defaults are reported through the reader/writer construction above)
+                    pass
                 # class identity of resolved defaults (abstract values do not carry it)
                 try:
                     dv = idf.get_tagged_field_default(f)
